@@ -131,6 +131,26 @@ func c09Eval(scheme, host string, maxDev int) (f *fw.Finding, variants int, acce
 	if f != nil {
 		return
 	}
+	// the normalisation clause is stated for special-scheme URLs as such: it must also hold for a URL produced by
+	// a parser that merely records validation errors
+	if pan := safely(func() {
+		if u, err := c15Reporting.Parse(scheme + "://" + refSp + "/"); err == nil {
+			h := u.Hostname()
+			for _, r := range h {
+				if r >= 0x80 || (r >= 'A' && r <= 'Z') || model.ForbiddenDomain(r) {
+					if !(strings.HasPrefix(h, "[") && (r == '[' || r == ']' || r == ':')) {
+						f = fw.F("host-not-normalised", host, "with WithReportValidationErrors, Parse(%s://%s/).Hostname() = %q contains U+%04X", scheme, refSp, h, r)
+						return
+					}
+				}
+			}
+		}
+	}); pan != "" {
+		f = fw.F("panic", host, "reporting parser panicked on host %q: %s", refSp, pan)
+	}
+	if f != nil {
+		return
+	}
 	accepted = strings.HasPrefix(ref, "OK:")
 	if utf8.ValidString(host) && model.PlainASCIIDomain(host) && host != "" {
 		// independent expectation (no delegate involved)
